@@ -831,6 +831,38 @@ def _xpub_standins():
         return Obj("hd", "HDPublicKey", at)
     return {("HDPublicKey", "parse"): parse, ("HDPublicKey", "__init__"): init, ("HDPublicKey", "xpub"): xpub, ("HDPublicKey", "child"): child}
 
+def c16_18(ctx):
+    """writer and reader of a key record agree on the fingerprint: for every spelling of a fingerprint (lower, upper, mixed case hex; a non-hex letter; 7 and 9
+    digits) the constructor's validator `is_valid_xfp_hex` and the reader `parse_partial_key_record` are evaluated on the same key record `[<xfp>/48h/1h/0h/2h]<key>`:
+    what the validator admits into the text the reader must read back as written (else the descriptor the constructor just produced is refused by parse), and what the
+    validator refuses the reader must refuse too.  Key parsing is a stand-in"""
+    from sa.cells import Evaluator, Raised, Undecided
+    spec_v, spec_r = "descriptor:is_valid_xfp_hex", "descriptor:parse_partial_key_record"
+    mod, fn = rl.get(ctx, spec_r)
+    hooks = _xpub_standins()
+    n = 0
+    try:
+        for what, xfp in (("lower-case hex", "c7d0648a"), ("digits only", "12980011"), ("upper-case hex", "C7D0648A"), ("mixed-case hex", "c7D0648a"), ("a last letter in upper case", "c7d0648A"),
+                          ("a letter outside hex", "c7d0648g"), ("seven digits", "c7d0648"), ("nine digits", "c7d0648a1")):
+            n += 1
+            admitted = Evaluator(ctx.repo, method_hooks=hooks).call(spec_v, [xfp])
+            try:
+                rec = Evaluator(ctx.repo, method_hooks=hooks, max_steps=1000000).call(spec_r, ["[%s/48h/1h/0h/2h]tpubKA" % xfp])
+                read = rec.get("xfp") if isinstance(rec, dict) else None
+            except Raised:
+                read = None
+            if admitted and read != xfp:
+                return [ctx.bad(spec_r, "a fingerprint in %s (`%s`) is admitted by the constructor's validator and written into the descriptor text, but the reader %s: the text the "
+                                        "constructor produced does not parse back to the same descriptor" % (what, xfp, "refuses the key record" if read is None else "reads it as `%s`" % read),
+                                fn, mod, key="xfp-agreement")]
+            if not admitted and read is not None and len(xfp) == 8:
+                return [ctx.bad(spec_r, "a fingerprint with %s (`%s`) is refused by the constructor but read by the parser" % (what, xfp), fn, mod, key="xfp-agreement")]
+    except Undecided as u:
+        return [ctx.err(spec_r, "key record reader not evaluable: %s" % u, fn, mod)]
+    ctx.count("cells", n)
+    return [ctx.ok(spec_r, "%d fingerprint spellings: every one the constructor admits is read back as written, every 8-character one it refuses is refused" % n, fn, mod, key="xfp-agreement")]
+
+
 
 def c16_16(ctx):
     if not hasattr(ctx, "_c16_16"):
@@ -937,6 +969,7 @@ def c16_17(ctx):
 OBLIGATIONS = [
     ("C16.17", "CELLS single substitution", c16_17),
     ("C16.16", "CELLS text of a key set", c16_16),
+    ("C16.18", "CELLS fingerprint writer/reader", c16_18),
     ("C16.15", "TABLE separator", c16_15),
     ("C16.14", "SHARED", c16_14),
     ("C16.13", "SET-ORDER", c16_13),
